@@ -18,7 +18,14 @@ def jsoftware (s : Software) : J := .obj [
   ("vendor", jostr s.vendor), ("product", .str s.product), ("version", .str s.version),
   ("patch", jostr s.patch), ("os", jostr s.os)]
 
-def jtf (tf : Timeframe) : J := .arr (tf.map fun (p, slots) => .arr [.str p, .arr (slots.map jostr)])
+def jtfStorage (tf : Timeframe) : J := .arr (tf.map fun (p, slots) => .arr [.str p, .arr (slots.map jostr)])
+
+/-- storage plus `p in tf`, `get_from(p, s)`, `get_till(p, s)` for the products the tool asks about -/
+def jtf (tf : Timeframe) : J := .obj [
+  ("storage", jtfStorage tf),
+  ("queries", .arr ([pOpenSSH, pDropbear, pLibSSH, pTinySSH].map fun p =>
+    .arr [.bool (tfContains tf p), jostr (tfGetFrom tf p true), jostr (tfGetTill tf p true),
+          jostr (tfGetFrom tf p false), jostr (tfGetTill tf p false)]))]
 
 def mkSw (product version : Str) (patch : Option Str) : Software := ⟨none, product, version, patch, none⟩
 
